@@ -221,12 +221,12 @@ _tier_rng = {}
 
 def extra_cases(tier):
     rng = random.Random(C.seed() * 15485863 + 5)
-    return tree_cases(rng, 7 if tier == "quick" else 60, ["float", "int", "dur", "durmin"])
+    return tree_cases(rng, 10 if tier == "quick" else 250, ["float", "int", "dur", "durmin"])
 
 
 def main(tier: str) -> int:
     return c02.main(tier, pid=PID, gen=gen_case, oracle_fn=oracle, prepare=prepare, rule=RULE,
-                    n_quick=600, n_thorough=8000, extra_cases=extra_cases,
+                    n_quick=800, n_thorough=30000, extra_cases=extra_cases,
                     targets=["Sim/Case.vo", "Sim/Faults.vo", "Props/C05.vo"],
                     nontrivial=lambda f: f.get("executed", 0) >= 3 and f.get("fault_hit") is True)
 
